@@ -32,7 +32,7 @@ Proof. induction ids as [|s r IH]; [reflexivity|]. simpl. rewrite IH. reflexivit
 Lemma info_sound_nodist : forall B f,
   f_dist f = None -> (forall x b, lookup f x = Some b -> f_from f <= fst x /\ fst x <= f_to f) -> info_sound B f.
 Proof.
-  intros B f Hd Hr x b lo hi Hl Hlo Hhi _. unfold intersecting.
+  intros B f Hd Hr x b lo hi Hl Hlo Hhi _. unfold intersecting, intersecting_gen.
   destruct (f_docs f) eqn:E; [unfold lookup, lookup_docs in Hl; rewrite E in Hl; discriminate|].
   destruct (Hr x b Hl) as [H1 H2]. rewrite Hd.
   assert ((hi <? f_from f) = false) by (apply N.ltb_ge; lia).
